@@ -75,11 +75,52 @@ def run(chk):
         r16_5(chk, mol)
     if chk.want("R16.6"):
         r16_6(chk, repo, mol)
+    chk.rule("R16.7", "how a number is written does not depend on its run-time Python type: no writer selects the float format by "
+                      "isinstance(v, float) alone (numpy float32 and integer coordinates are not instances of float and would fall to another format)", 1)
+    if chk.want("R16.7"):
+        r16_7(chk, sdf, xyz)
     chk.assume("values fit their fixed-width fields (the property restricts coordinates to the representable range)")
     chk.assume("bond perception, numeric rounding to the written precision are not decided")
 
 
 # ------------------------------------------------------------------------------------------------
+def float_only_type_tests(tree):
+    """isinstance(v, float) / isinstance(v, (float, int)) / type(v) is float  tests that leave numpy floating types out."""
+    out = []
+    for n in ast.walk(tree):
+        if isinstance(n, ast.Call) and isinstance(n.func, ast.Name) and n.func.id == "isinstance" and len(n.args) == 2:
+            t = n.args[1]
+            names = [ast.unparse(x) for x in (t.elts if isinstance(t, ast.Tuple) else [t])]
+            if "float" in names and not any(x.endswith(("floating", "Real", "Number", "number", "inexact", "generic")) for x in names):
+                out.append(n)
+        if isinstance(n, ast.Compare) and len(n.ops) == 1 and isinstance(n.ops[0], (ast.Is, ast.Eq)) and isinstance(n.left, ast.Call) \
+                and isinstance(n.left.func, ast.Name) and n.left.func.id == "type" and isinstance(n.comparators[0], ast.Name) \
+                and n.comparators[0].id == "float":
+            out.append(n)
+    return out
+
+
+def r16_7(chk, sdf, xyz):
+    import textwrap
+    probe = ast.parse(textwrap.dedent("""
+        def w(v, n):
+            if isinstance(v, float):
+                return f"{v:{n}.4f}"
+            return f"{int(v):{n}d}"
+    """))
+    chk.need(len(float_only_type_tests(probe)) == 1, "R16.7 self-check: the embedded float-only type test was not recognised")
+    chk.ob("R16.7", SDF, "(self-check)", "the rule recognises an isinstance(v, float) format switch in its embedded example", True, nontrivial=False)
+    for rel, mod in ((SDF, sdf), (XYZ, xyz)):
+        for qual, fn in mod.funcs.items():
+            if qual.startswith(("parse_", "_parse")) or "pars" in qual:
+                continue            # readers convert text, their values are Python objects
+            for n in float_only_type_tests(fn):
+                chk.ob("R16.7", rel, qual, "the number format is not selected by a test for the Python type float alone", False, node=n,
+                       fingerprint=f"float-type-test:{ast.unparse(n)[:40]}", expected="a format applied to every real number (or a test that includes numpy.floating)",
+                       found=ast.unparse(n))
+        chk.ob("R16.7", rel, "(module)", f"no writer of {rel} switches its number format on isinstance(v, float)", True, fingerprint=f"scanned:{rel}")
+
+
 def r16_1(chk, mol):
     q = "Molecule.to_sdf_string"
     ev = mol.ev(q)
@@ -259,8 +300,12 @@ def r16_3(chk, sdf, mol):
     pc = sdf.ev("parse_sdf_contents")
     use = [e for e in pc.events if e.kind == "call" and call_name(e.value.as_atom() or ()) == "parse_counts_line"]
     chk.need(use, "parse_sdf_contents: parse_counts_line call not found")
-    gk = [c.key() for c, pol in use[0].guards if not pol]
-    skip_blank = any(".strip()" in k and k.startswith("(not ") for k in gk) or any("(lt len(" in k or "(le len(" in k for k in gk)
+    # guards are canonical: `if not compound.strip(): continue` leaves (compound.strip(), True) on the path that goes on
+    # (a test on the number of lines, `len(lines) < 4` / `len(lines) <= 3`, is canonically not (len < 4) / (3 < len))
+    gk = [c.key() for c, pol in use[0].guards if pol]
+    gn = [c.key() for c, pol in use[0].guards if not pol]
+    skip_blank = any(".strip()" in k and not k.startswith("(") for k in gk) or any(k.startswith("(lt len(") for k in gn) \
+        or any(k.startswith("(lt ") and " len(" in k and not k.startswith("(lt len(") for k in gk)
     chk.ob("R16.3", SDF, "parse_sdf_contents", "a chunk that holds nothing but blank lines is skipped before its counts line is read "
            "(testing len(lines) == 0 lets a trailing blank line through)", skip_blank, node=use[0].node, fingerprint="skip-blank-chunk",
            expected="if not compound.strip(): continue", found=gk[:3])
